@@ -44,6 +44,10 @@ fn classify<C: RgbColor>(c: C) -> Cl {
 
 /// Clipping framebuffer target; counts offers outside its area (allowed).
 struct Fb<C> {
+    /// top-left corner of the bounding box (targets need not start at the origin: the
+    /// embedded-graphics `translated()` / `cropped()` adapters produce such targets)
+    ox: i32,
+    oy: i32,
     w: u32,
     h: u32,
     px: Vec<Cl>,
@@ -52,12 +56,15 @@ struct Fb<C> {
 }
 impl<C> Fb<C> {
     fn new(w: u32, h: u32) -> Self {
-        Fb { w, h, px: vec![Cl::Unpainted; w as usize * h as usize], outside_offers: 0, _p: std::marker::PhantomData }
+        Self::at(0, 0, w, h)
+    }
+    fn at(ox: i32, oy: i32, w: u32, h: u32) -> Self {
+        Fb { ox, oy, w, h, px: vec![Cl::Unpainted; w as usize * h as usize], outside_offers: 0, _p: std::marker::PhantomData }
     }
 }
-impl<C: RgbColor> OriginDimensions for Fb<C> {
-    fn size(&self) -> Size {
-        Size::new(self.w, self.h)
+impl<C: RgbColor> Dimensions for Fb<C> {
+    fn bounding_box(&self) -> Rectangle {
+        Rectangle::new(Point::new(self.ox, self.oy), Size::new(self.w, self.h))
     }
 }
 impl<C: RgbColor> DrawTarget for Fb<C> {
@@ -65,8 +72,9 @@ impl<C: RgbColor> DrawTarget for Fb<C> {
     type Error = core::convert::Infallible;
     fn draw_iter<I: IntoIterator<Item = Pixel<C>>>(&mut self, pixels: I) -> Result<(), Self::Error> {
         for Pixel(p, c) in pixels {
-            if p.x >= 0 && p.y >= 0 && (p.x as u32) < self.w && (p.y as u32) < self.h {
-                self.px[p.y as usize * self.w as usize + p.x as usize] = classify(c);
+            let (x, y) = (p.x as i64 - self.ox as i64, p.y as i64 - self.oy as i64);
+            if x >= 0 && y >= 0 && x < self.w as i64 && y < self.h as i64 {
+                self.px[y as usize * self.w as usize + x as usize] = classify(c);
             } else {
                 self.outside_offers += 1;
             }
@@ -75,10 +83,10 @@ impl<C: RgbColor> DrawTarget for Fb<C> {
     }
     fn fill_solid(&mut self, area: &Rectangle, color: C) -> Result<(), Self::Error> {
         // clipped natively (speed on large targets); semantics = default
-        let x0 = (area.top_left.x as i64).max(0);
-        let y0 = (area.top_left.y as i64).max(0);
-        let x1 = (area.top_left.x as i64 + area.size.width as i64).min(self.w as i64);
-        let y1 = (area.top_left.y as i64 + area.size.height as i64).min(self.h as i64);
+        let x0 = (area.top_left.x as i64 - self.ox as i64).max(0);
+        let y0 = (area.top_left.y as i64 - self.oy as i64).max(0);
+        let x1 = (area.top_left.x as i64 - self.ox as i64 + area.size.width as i64).min(self.w as i64);
+        let y1 = (area.top_left.y as i64 - self.oy as i64 + area.size.height as i64).min(self.h as i64);
         let total = area.size.width as u64 * area.size.height as u64;
         let mut inside = 0u64;
         let cl = classify(color);
@@ -164,7 +172,11 @@ pub fn judge(w: usize, h: usize, at: &dyn Fn(usize, usize) -> Cl) -> Result<(), 
 }
 
 fn one<C: RgbColor>(w: u32, h: u32) -> Result<(Result<(), (String, String)>, u64), CallResult> {
-    let mut fb = Fb::<C>::new(w, h);
+    one_at::<C>(0, 0, w, h)
+}
+
+fn one_at<C: RgbColor>(ox: i32, oy: i32, w: u32, h: u32) -> Result<(Result<(), (String, String)>, u64), CallResult> {
+    let mut fb = Fb::<C>::at(ox, oy, w, h);
     guarded(|| {
         let _ = TestImage::<C>::new().draw(&mut fb);
     })?;
@@ -181,15 +193,20 @@ pub fn c19(args: &Args) -> Acc {
             let ct = idx % 3;
             let w = ((idx / 3) % maxs) as u32;
             let h = (idx / 3 / maxs) as u32;
+            // every third size also on a target whose bounding box does not start at the origin
+            let (ox, oy) = if (w + 2 * h) % 3 == 0 { ([7, -5, 1000, -70000][(w % 4) as usize], [-3, 11, -2000, 40000][(h % 4) as usize]) } else { (0, 0) };
             let r = match ct {
-                0 => one::<Rgb565>(w, h),
-                1 => one::<Rgb666>(w, h),
-                _ => one::<Rgb888>(w, h),
+                0 => one_at::<Rgb565>(ox, oy, w, h),
+                1 => one_at::<Rgb666>(ox, oy, w, h),
+                _ => one_at::<Rgb888>(ox, oy, w, h),
             };
             let name = ["Rgb565", "Rgb666", "Rgb888"][ct as usize];
-            let case = || J::obj().with("width", w).with("height", h).with("colour_type", name);
+            let case = || J::obj().with("width", w).with("height", h).with("colour_type", name).with("target_origin", vec![ox, oy]);
             a.case(&format!("{}x{}/{}", w, h, name), w >= 32 && h >= 32);
             a.count("targets_drawn", 1);
+            if (ox, oy) != (0, 0) {
+                a.count("targets_not_at_origin", 1);
+            }
             match r {
                 Err(c) => a.violate("sizes", idx, "panic", format!("{:?}", c), case()),
                 Ok((Err((sig, d)), _)) => a.violate("sizes", idx, sig, d, case()),
@@ -208,7 +225,11 @@ pub fn c19(args: &Args) -> Acc {
         total.notes.insert("exhaustive".into(), J::Str("all target sizes 0x0 .. 96x96 x {Rgb565, Rgb666, Rgb888}".into()));
     }
     if args.want_stage("large") {
-        let mut sizes: Vec<(u32, u32)> = vec![(1000, 7), (7, 1000), (32, 32), (33, 32), (32, 1000), (1000, 32), (320, 240), (240, 320), (536, 240), (1024, 1024), (65535, 33), (33, 65535), (100, 3000)];
+        let mut sizes: Vec<(u32, u32)> = vec![(1000, 7), (7, 1000), (32, 32), (33, 32), (32, 1000), (1000, 32), (320, 240), (240, 320), (536, 240), (1024, 1024), (65535, 33), (33, 65535), (100, 3000),
+            // beyond what a Display can be: other draw targets may be larger than 65535
+            (65536, 33), (65600, 32), (40, 70000), (32, 65537), (131073, 32),
+            // zero-pixel targets with one gigantic dimension
+            (4294967295, 0), (0, 4294967295), (2147483648, 0), (0, 2147483649)];
         if !args.quick() {
             sizes.extend([(4096, 4096), (65535, 64), (2048, 4096), (97, 4099)]);
         }
